@@ -43,6 +43,15 @@ var classOwners = map[string][]string{
 	"COTENANT_DAMAGED":  {"C09", "C14"},
 	"CALLER_MODIFIED":   {"C09"},
 	"RETAINED_CHANGED":  {"C09"},
+	// cursor-model classes of the buffered reader
+	"NIL_NIL": {"C04", "C14"}, "WRONG_BYTES": {"C04", "C14"}, "WRONG_LEN": {"C04", "C14"}, "READLEN": {"C04", "C14"},
+	"CONSUMED_ON_FAILURE": {"C04", "C14"}, "PEEK_ADVANCED": {"C04", "C14"}, "OVER_REPORT": {"C04", "C14"}, "SHORT_NO_ERROR": {"C04", "C14"},
+	"UNEXPLAINED_ERROR": {"C04", "C05", "C14"}, "WRONG_ERROR": {"C04", "C14"}, "FABRICATED_ERROR": {"C04", "C14"}, "LOSS_AT_DRAIN": {"C04", "C14"},
+	"BYTES_WITH_ERROR": {"C04", "C14"}, "NEGATIVE_ACCEPTED": {"C04", "C05", "C14"}, "SKIP_BEYOND_END": {"C04", "C14"}, "CONSUMED_NE_REPORTED": {"C04", "C14"},
+	// region-list-model classes of the buffered writer
+	"SINK_MISMATCH": {"C05", "C14"}, "SINK_NOT_PREFIX": {"C05", "C14"}, "WRITTENLEN": {"C05", "C14"}, "REGION_LEN": {"C05", "C14"},
+	"ERR_NOT_RETURNED": {"C05", "C14"}, "ERR_NOT_STICKY": {"C05", "C14"}, "TARGET_MISMATCH": {"C05", "C14"}, "WRITEBINARY_SHORT": {"C05", "C14"},
+	"WRITE_AFTER_ERROR": {"C05", "C14"}, "REGION_CLOBBERED": {"C05", "C09", "C14"},
 }
 
 // Ctx is the context of one simulated run.
@@ -225,6 +234,24 @@ func (c *Ctx) Fail(class, site string, facts F, format string, args ...interface
 	panic(&Violation{Property: c.Prop, Class: class, Site: site, Facts: facts, Detail: fmt.Sprintf(format, args...)})
 }
 
+// runAbort ends a run without a verdict (counted in the evidence).
+type runAbort struct{ reason string }
+
+// AbortRun ends the run without a verdict, e.g. after a simulated out-of-memory that the
+// scenario did not provoke on purpose.
+func (c *Ctx) AbortRun(reason string) {
+	c.Count("aborted." + reason)
+	panic(runAbort{reason})
+}
+
+// GuardNoOOM is Guard for scenarios that never ask for huge sizes: a simulated OOM ends the
+// run without a verdict.
+func (c *Ctx) GuardNoOOM(op string, f func()) {
+	if out := c.Guard(op, f); out.OOM != nil {
+		c.AbortRun("unexpected_sim_oom")
+	}
+}
+
 // Outcome of Guard.
 type Outcome struct {
 	OOM      *dirtmake.SimOOM // simulated out of memory inside the call
@@ -250,6 +277,8 @@ func (c *Ctx) Guard(op string, f func()) (out Outcome) {
 				c.Tracef("  !! %s", v.Error())
 				return
 			case schedAbort:
+				panic(v)
+			case runAbort:
 				panic(v)
 			}
 			panic(c.panicViolation(op, r))
